@@ -34,6 +34,11 @@ CHECKS = {
   technique="deterministic simulation: seeded call histories (interleaved clients, env perturbations, interrupt faults) executed in a forked pristine process and compared call-by-call with the same call issued first in another pristine fork",
   text="Seeded search over histories of <= 4 result-bearing calls per client on explicit solver objects and the library's shared default solver instances; each result is compared (1e-12 relative; AMG-backed distances at 100x the linear tolerance) with the same call issued first in a pristine forked process whose object was built from the constructor arguments and given the parameters set for it, under a second interleaving of the same client programs, and after interrupted calls. Sampling, not proof.",
   note="Trusted: os.fork of a process that only imported darsia as 'fresh process' (a sample is re-run in a cold interpreter with another PYTHONHASHSEED by the determinism check); the harness model of which parameters H1 / split-Bregman set on an explicit solver; memoised numba.njit is semantically transparent; seam names Jacobi._neighbor_accumulation, split_bregman_tvd.njit, wasserstein.time."),
+ "C17": dict(
+  engine="c17_no_mutation", category="exploration", design_ref="DESIGN.md §5.4",
+  technique="deterministic simulation of call histories on a pool of shared operands: seeded programs over a registry of call forms, deep snapshot of every pool member and of the global RNG states compared after every step, minimised replayable traces",
+  text="Seeded search over programs of 2-8 calls drawn from a registry of ~45 call forms documented to return a new object, on a pool of shared images, arrays and caller-owned containers; results join the pool. After every step all pool members (arguments and bystanders) and the numpy / Python global RNG states must equal their pre-step snapshots, and image arithmetic must equal the numpy expression on the raw arrays. Sampling over inputs and programs; no fault or time dimension exists for this property.",
+  note="Trusted: the snapshot function (engines/c17_no_mutation.py: snap) reaches all state of an operand through __dict__, list/tuple/dict items and array bytes; calls that raise claim nothing; reset_origin is documented to modify its receiver."),
  "C03": dict(
   engine="c03_geometry", category="exploration", design_ref="DESIGN.md §5.1",
   technique="deterministic simulation: seeded interleaving of client programs on shared caching Geometry objects, injected resize failures and environment perturbations, per-step fresh-clone and reference-model oracles",
